@@ -188,6 +188,8 @@ type Op struct {
 	Via  int  // 0 = Config.PrepareStmt handle, 1 = Session{PrepareStmt:true} handle
 	Row  bool // q: read through Row() (QueryRowContext) instead of Scan (QueryContext)
 	Back bool // tx: the block ends with an error of its own, so the transaction is rolled back
+	// Manual: tx is driven by hand (Begin ... Commit / Rollback) instead of a Transaction block
+	Manual bool
 }
 
 var errBack = errors.New("c14: block asks for rollback")
@@ -222,6 +224,13 @@ func (o Op) String() string {
 		parts := make([]string, len(o.Sub))
 		for i, s := range o.Sub {
 			parts[i] = s.String()
+		}
+		if o.Manual {
+			end := "Commit"
+			if o.Back {
+				end = "Rollback"
+			}
+			return "Begin{" + strings.Join(parts, " ") + " " + end + "}@" + via
 		}
 		if o.Back {
 			return o.Kind + "{" + strings.Join(parts, " ") + " ROLLBACK}@" + via
@@ -393,10 +402,18 @@ func genProgram(t *rapid.T, g int, mode string, allowClose bool) []Op {
 			o.Row = rapid.IntRange(0, 3).Draw(t, "row") == 0
 		case "tx", "conn":
 			o.Back = k == "tx" && rapid.IntRange(0, 3).Draw(t, "rollback") == 0
+			o.Manual = k == "tx" && rapid.IntRange(0, 3).Draw(t, "manual") == 0
 			m := rapid.IntRange(1, 2).Draw(t, "txlen")
 			for j := 0; j < m; j++ {
 				o.Sub = append(o.Sub, Op{Kind: "q", Via: via, Row: rapid.IntRange(0, 3).Draw(t, "row") == 0,
 					Text: rapid.IntRange(0, len(texts)-1).Draw(t, "text"), Arg: rapid.IntRange(1, nItems).Draw(t, "arg")})
+			}
+			if k == "tx" && rapid.IntRange(0, 3).Draw(t, "nested") == 0 {
+				inner := Op{Kind: "tx", Via: via, Back: rapid.Bool().Draw(t, "innerRollback")}
+				inner.Sub = append(inner.Sub, Op{Kind: "q", Via: via, Row: rapid.IntRange(0, 3).Draw(t, "row") == 0,
+					Text: rapid.IntRange(0, len(texts)-1).Draw(t, "text"), Arg: rapid.IntRange(1, nItems).Draw(t, "arg")})
+				at := rapid.IntRange(0, len(o.Sub)).Draw(t, "nestedAt")
+				o.Sub = append(o.Sub[:at], append([]Op{inner}, o.Sub[at:]...)...)
 			}
 		}
 		ops = append(ops, o)
@@ -464,24 +481,62 @@ func runCase(rt *rapid.T) {
 					record(r)
 				case "tx":
 					start := ctl.tick()
-					err := e.handle(o.Via, ctx).Transaction(func(tx *gorm.DB) error {
-						atomic.StoreInt32(&ctl.inTx[gid], 1)
-						defer atomic.StoreInt32(&ctl.inTx[gid], 0)
-						for _, s := range o.Sub {
+					// members of a block; a member that is itself a tx is a nested block (SAVEPOINT through the
+					// transaction's Exec path, ROLLBACK TO when it ends with an error)
+					var members func(tx *gorm.DB, subs []Op)
+					members = func(tx *gorm.DB, subs []Op) {
+						for _, s := range subs {
+							if s.Kind == "tx" {
+								ns := ctl.tick()
+								nerr := tx.Transaction(func(tx2 *gorm.DB) error {
+									members(tx2, s.Sub)
+									if s.Back {
+										return errBack
+									}
+									return nil
+								})
+								if s.Back && errors.Is(nerr, errBack) {
+									nerr = nil
+								} else if s.Back && nerr == nil {
+									nerr = errors.New("nested Transaction returned nil although the block returned an error")
+								}
+								record(opResult{gid: gid, op: s, inTx: true, start: ns, end: ctl.tick(), err: nerr})
+								continue
+							}
 							r := opResult{gid: gid, op: s, inTx: true, start: ctl.tick()}
 							r.val, r.err = query(tx, s)
 							r.end = ctl.tick()
 							record(r)
 						}
-						if o.Back {
-							return errBack
+					}
+					var err error
+					if o.Manual {
+						tx := e.handle(o.Via, ctx).Begin()
+						if err = tx.Error; err == nil {
+							atomic.StoreInt32(&ctl.inTx[gid], 1)
+							members(tx, o.Sub)
+							if o.Back {
+								err = tx.Rollback().Error
+							} else {
+								err = tx.Commit().Error
+							}
+							atomic.StoreInt32(&ctl.inTx[gid], 0)
 						}
-						return nil
-					})
-					if o.Back && errors.Is(err, errBack) {
-						err = nil // the block's own error comes back unchanged after the rollback
-					} else if o.Back && err == nil {
-						err = errors.New("Transaction returned nil although the block returned an error")
+					} else {
+						err = e.handle(o.Via, ctx).Transaction(func(tx *gorm.DB) error {
+							atomic.StoreInt32(&ctl.inTx[gid], 1)
+							defer atomic.StoreInt32(&ctl.inTx[gid], 0)
+							members(tx, o.Sub)
+							if o.Back {
+								return errBack
+							}
+							return nil
+						})
+						if o.Back && errors.Is(err, errBack) {
+							err = nil // the block's own error comes back unchanged after the rollback
+						} else if o.Back && err == nil {
+							err = errors.New("Transaction returned nil although the block returned an error")
+						}
 					}
 					record(opResult{gid: gid, op: o, start: start, end: ctl.tick(), err: err})
 				case "conn":
@@ -736,16 +791,38 @@ func runCase(rt *rapid.T) {
 	}
 	// the window of the transaction block enclosing a tx member
 	txWindow := func(r opResult) (int64, int64) {
+		// the outermost enclosing block: a dead connection is dead for everything inside it
+		ws, we := r.start, r.end
 		for _, t := range results {
-			if (t.op.Kind == "tx" || t.op.Kind == "conn") && t.gid == r.gid && t.start <= r.start && r.end <= t.end {
-				return t.start, t.end
+			if (t.op.Kind == "tx" || t.op.Kind == "conn") && !t.inTx && t.gid == r.gid && t.start <= r.start && r.end <= t.end {
+				ws, we = t.start, t.end
 			}
 		}
-		return r.start, r.end
+		return ws, we
+	}
+	// a failed SAVEPOINT / ROLLBACK TO of a nested block (its preparation failed, or hit a dead connection)
+	// leaves its error on the enclosing transaction's handle, as a failed exec of it does in non-prepared
+	// mode: the later members of the enclosing block report that error
+	controlFault := func(gid int, s0, e0 int64, kinds ...string) bool {
+		for _, f := range ctl.faults {
+			if f.gid != gid || f.t < s0 || f.t > e0 || !(strings.HasPrefix(f.text, "SAVEPOINT") || strings.HasPrefix(f.text, "ROLLBACK TO")) {
+				continue
+			}
+			for _, k := range kinds {
+				if f.kind == k {
+					return true
+				}
+			}
+		}
+		return false
 	}
 	for _, r := range results {
 		if r.op.Kind == "tx" || r.op.Kind == "conn" {
-			if r.err != nil && !nearCacheEvent(r) && !faultFor(r.gid, r.start, r.end, "conn-badconn", "prepare-badconn", "prepare-error") {
+			bs, be := r.start, r.end
+			if r.inTx {
+				bs, be = txWindow(r) // a nested block shares the fate of the enclosing transaction
+			}
+			if r.err != nil && !nearCacheEvent(r) && !faultFor(r.gid, bs, be, "conn-badconn", "prepare-badconn", "prepare-error") {
 				fail("transaction block of g%d returned %v with no Reset/Close/fault in its window", r.gid, r.err)
 			}
 			continue
@@ -762,11 +839,11 @@ func runCase(rt *rapid.T) {
 		}
 		switch {
 		case isErr(r.err, errPrepare):
-			if !failedPrepareDuring(r, errPrepare) {
+			if !failedPrepareDuring(r, errPrepare) && !(r.inTx && controlFault(r.gid, ws, r.end, "prepare-error")) {
 				fail("g%d %s returned the injected prepare error although no preparation failed during the operation (a failed preparation was cached)", r.gid, r.op)
 			}
 		case isErr(r.err, driver.ErrBadConn):
-			if !failedPrepareDuring(r, driver.ErrBadConn) && !faultFor(r.gid, ws, we, "conn-badconn") {
+			if !failedPrepareDuring(r, driver.ErrBadConn) && !faultFor(r.gid, ws, we, "conn-badconn") && !(r.inTx && controlFault(r.gid, ws, r.end, "prepare-badconn")) {
 				fail("g%d %s returned ErrBadConn but no connection fault was injected into it", r.gid, r.op)
 			}
 		case errors.Is(r.err, gorm.ErrInvalidDB), strings.Contains(r.err.Error(), "statement is closed"),
